@@ -119,6 +119,7 @@ Inductive ev :=
 | EDeadline (c : cid)                     (* Read returned os.ErrDeadlineExceeded *)
 | EWrite (c : cid) (w : nat) (a : addr)   (* Write sent payload w to address a *)
 | ERet (c : cid)                          (* the handler returned (Close starts) *)
+| EClosed (c : cid)                       (* Close has returned *)
 | EStop                                   (* the loop returned the socket error *)
 | EPanic.                                 (* send on closed channel *)
 
@@ -362,8 +363,8 @@ Definition exec (g : cfg) (s : state) (t : step) : option state :=
           match cphase k with
           | Closing i =>
               match nth_error (close_ops g) i with
-              | None => Some (with_conn s c (set_phase k Done) [])
-              | Some CReturn => Some (with_conn s c (set_phase k Done) [])
+              | None => Some (with_conn s c (set_phase k Done) [EClosed c])
+              | Some CReturn => Some (with_conn s c (set_phase k Done) [EClosed c])
               | Some CRelease => Some (with_conn s c (set_last (set_phase k (Closing (S i))) (readq k) None) [])
               | Some CCloseRead => Some (with_conn s c (set_rclosed k (Closing (S i))) [])
               | Some CSignal => Some (with_conn s c (set_sclosed k (Closing (S i))) [])
@@ -488,7 +489,7 @@ Fixpoint causal_go (cs : list cid) (ps : list pkt) (tr : list ev) : bool :=
   | e :: r =>
       match e with
       | ERead c p _ _ _ => nat_in c cs && existsb (pkt_eqb p) ps && causal_go cs ps r
-      | EEof c | EDeadline c | ERet c | EWrite c _ _ => nat_in c cs && causal_go cs ps r
+      | EEof c | EDeadline c | ERet c | EClosed c | EWrite c _ _ => nat_in c cs && causal_go cs ps r
       | ENew c _ => negb (nat_in c cs) && causal_go (c :: cs) ps r
       | EArr p => causal_go cs (p :: ps) r
       | _ => causal_go cs ps r
@@ -526,6 +527,7 @@ Fixpoint chunks_go (st : chunk_st) (tr : list ev) : bool :=
             | None => false
             end
       | ERet c => let '(cur, _) := chunk_lookup c st in chunks_go (chunk_set c (cur, true) st) r
+      | EClosed c => chunks_go (chunk_set c (None, true) st) r   (* Close has released what was held *)
       | _ => chunks_go st r
       end
   end.
@@ -641,6 +643,11 @@ Fixpoint replay (g : cfg) (s : state) (nnew : nat) (tr : list ev) : bool :=
       | ERet c =>
           match exec g s (HandlerReturn c) with
           | Some s' => replay g (loop_quiesce g 6 (close_all g 8 s' c)) nnew r
+          | None => false
+          end
+      | EClosed c =>
+          match get s c with
+          | Some k => match cphase k with Done => replay g s nnew r | _ => false end
           | None => false
           end
       | _ => false
